@@ -219,6 +219,13 @@ def run(tier):
         r = vf.tlc(PID, "mc-" + dev, "Scheduler", cfg, workers=2)
         if r["kind"] != "invariant":
             raise vf.Broken("the named deviation %s no longer violates the specification: vacuous model" % dev)
+    # the open finding C02-periodic-runnow-blocked-behind-pending-signal at design level: with NoStuckCaller demanded
+    # of the periodic protocol as the code implements it (blocking send under the state lock), TLC produces the
+    # counterexample (two run-now requests, context cancelled); the run must be rejected as long as the finding is open
+    r = vf.tlc(PID, "mc-periodic-stuck", "Scheduler", "MC_Scheduler_periodic_stuck.cfg", workers=2)
+    if r["kind"] != "temporal":
+        raise vf.Broken("MC_Scheduler_periodic_stuck.cfg no longer violates NoStuckCaller (%s %s): has the finding been repaired? "
+                        "then move NoStuckCaller into MC_Scheduler_periodic.cfg and close the finding" % (r["kind"], r["violated"]))
     if tier == "thorough":
         v.add_mc(vf.tlc_exhaustive(PID, "Scheduler", "MC_Scheduler_big.cfg", workers=8, timeout=1500))
         v.add_mc(vf.tlc_exhaustive(PID, "Scheduler", "MC_Scheduler_periodic_big.cfg", workers=8, timeout=1500))
